@@ -148,7 +148,7 @@ def make_case(r, max_cells):
     return dom, cl, kind, total, damping, minimal
 
 
-def solve(dom, cl, total, damping, minimal, fpots, cap):
+def solve(dom, cl, total, damping, minimal, fpots, cap, pre=None):
     # a third of the objects start with another damping value, which is re-assigned on the live object after the first call
     # (LocalInference does this when the loss rises late: model.damping = (0.9 + model.damping)/2)
     first = (0.9 + damping) / 2.0 if int(damping * 1000) % 3 == 0 else damping
@@ -156,6 +156,23 @@ def solve(dom, cl, total, damping, minimal, fpots, cap):
     size = dict(map(tuple, dom))
     cv = rggen.impl_cv(fpots)
     calls, used = [], 0
+    if pre is not None:
+        # a history on the oracle AND on the parameter container: solved once for other potentials, then every entry of the same
+        # CliqueVector is re-bound to the potentials of this case (messages persist: hps_certificate_warm covers the warm state)
+        cv = rggen.impl_cv(pre)
+        rg.iters = 400
+        cnt = [0]
+        with np.errstate(all='ignore'):
+            mu = rg.belief_propagation(cv, callback=lambda m: cnt.__setitem__(0, cnt[0] + 1))
+            pf_impl = float(rg.primal_feasibility(mu))
+        tab = rggen.table(mu)
+        errs = edge_errors(rg, tab, size)
+        calls.append({'iters': 400, 'sweeps': cnt[0], 'tab': tab, 'pf_impl': pf_impl, 'pf': sum(errs) / len(errs) if errs else 0.0, 'errs': errs,
+                      'damping': float(rg.damping), 'fp': pre})
+        new = rggen.impl_cv(fpots)
+        for k_ in new:
+            cv[k_] = new[k_]
+        PREHIST[0] += 1
     for ci, it in enumerate(SCHEDULE):
         if used >= cap:
             break
@@ -170,11 +187,14 @@ def solve(dom, cl, total, damping, minimal, fpots, cap):
         tab = rggen.table(mu)
         errs = edge_errors(rg, tab, size)
         pf = sum(errs) / len(errs) if errs else 0.0
-        calls.append({'iters': it, 'sweeps': cnt[0], 'tab': tab, 'pf_impl': pf_impl, 'pf': pf, 'errs': errs, 'damping': float(rg.damping)})
+        calls.append({'iters': it, 'sweeps': cnt[0], 'tab': tab, 'pf_impl': pf_impl, 'pf': pf, 'errs': errs, 'damping': float(rg.damping), 'fp': fpots})
         used += cnt[0]
         if pf <= 1e-6 * total:
             break
     return rg, calls, used, size
+
+
+PREHIST = [0]
 
 
 def cert_request(dom, rg, total, fpots, tab, size):
@@ -255,7 +275,8 @@ def check(res, drv_resp, cert_resp, case, rg, calls, used, size, fpots, pots, r_
                       f'convergence test: tables {list(where[0])} and {list(where[1])} disagree on {where[2]} by {worst!r} (L1) while all region-graph edges '
                       f'together disagree by {sum(last["errs"])!r} after {used} sweeps (total {total}, cliques {cl})'
                       + ('; the two regions name the same attribute set and the region graph has no edge between them' if set(where[0]) == set(where[1]) else ''),
-                      rp, key='hps:same-set-regions' if set(where[0]) == set(where[1]) else 'hps:shared-subregion')
+                      rp, key=('hps:same-set-regions' if (tuple(where[0]) in [tuple(c) for c in cl] or tuple(where[1]) in [tuple(c) for c in cl]) else 'hps:same-set-regions:derived')
+                      if set(where[0]) == set(where[1]) else 'hps:shared-subregion')
         ok = False
     # the same certificate evaluated by the Lean model on the implementation's messages and tables
     if cert_resp is not None:
@@ -340,8 +361,9 @@ def run(res, drv, tier, seed):
         probe = rggen.build_rg(dom, cl, total, convex=True, minimal=minimal)
         pots = rggen.gen_pots(r, dom, list(probe.cliques), transposed=0.3 if r.random() < 0.25 else 0.0)
         fpots = rggen.pots_float(pots)
+        pre = rggen.pots_float(rggen.gen_pots(r, dom, list(probe.cliques))) if (generated and len(work) % 3 == 2) else None
         try:
-            rg, calls, used, size = solve(dom, cl, total, damping, minimal, fpots, ccap)
+            rg, calls, used, size = solve(dom, cl, total, damping, minimal, fpots, ccap, pre=pre)
         except Exception as e:      # the oracle raises on a valid input: a failing input, never an infrastructure error
             canon = {'dom': dom, 'cliques': cl, 'total': total, 'damping': damping, 'minimal': minimal, 'pots': gmgen.enc_pots(pots), 'cap': ccap}
             res.case(canon, True)
@@ -352,7 +374,7 @@ def run(res, drv, tier, seed):
         work.append((case, rg, calls, used, size, fpots, pots))
         reqs.append(cert_request(dom, rg, total, fpots, calls[-1]['tab'], size))
         reqs.append({'op': 'hps', 'dom': dom, 'rg': rggen.slim_rg(rggen.export_rg(rg)), 'total': enc_f(total), 'damping': enc_f(damping),
-                     'convergence': enc_f(rg.convergence), 'calls': [{'iters': c['iters'], 'pots': rggen.enc_fpots(fpots), 'damping': enc_f(c['damping'])} for c in calls]})
+                     'convergence': enc_f(rg.convergence), 'calls': [{'iters': c['iters'], 'pots': rggen.enc_fpots(c.get('fp', fpots)), 'damping': enc_f(c['damping'])} for c in calls]})
     resps = drv.run(reqs, timeout=3000) if drv else [None] * (2 * len(work))
     r_aux = rng(seed, 'C17-aux')
     for i, (case, rg, calls, used, size, fpots, pots) in enumerate(work):
@@ -374,5 +396,5 @@ def replay(res, drv, rp):
     if drv:
         cert = drv.one(cert_request(dom, rg, total, fpots, calls[-1]['tab'], size))
         resp = drv.one({'op': 'hps', 'dom': dom, 'rg': rggen.slim_rg(rggen.export_rg(rg)), 'total': enc_f(total), 'damping': enc_f(damping),
-                        'convergence': enc_f(rg.convergence), 'calls': [{'iters': c['iters'], 'pots': rggen.enc_fpots(fpots), 'damping': enc_f(c['damping'])} for c in calls]})
+                        'convergence': enc_f(rg.convergence), 'calls': [{'iters': c['iters'], 'pots': rggen.enc_fpots(c.get('fp', fpots)), 'damping': enc_f(c['damping'])} for c in calls]})
     check(res, resp, cert, (dom, cl, 'replay', total, damping, minimal), rg, calls, used, size, fpots, pots, rng(0, 'C17-aux'), cap)
